@@ -99,7 +99,10 @@ def _cli_op(rng):
         tree = rng.choice(({}, {"a_cm.css": ".a{color:#777}"}, {"notes.txt": "x"}, {"sub/x_cm.css": ".a{color:#777}", "readme.md": "#"}))
         settings["default_bg"] = rng.choice(("black", "#222", "navy", "rgb(20, 30, 40)"))
         return {"op": "cli", "tree": tree, "settings": settings, "order_key": rng.randrange(1 << 20)}
-    for name in rng.sample(("a.css", "b.css", "sub/c.css"), rng.randint(1, 2)):
+    names = rng.sample(("a.css", "b.css", "sub/c.css"), rng.randint(1, 2))
+    if rng.random() < 0.1:
+        names = ["comp%02d.css" % k for k in range(rng.randint(8, 14))]  # a component library: many small stylesheets in one run
+    for name in names:
         feats = gen.draw_features(rng, ("vars", "var-shared", "var-fallback", "var-undefined", "nesting", "important", "keywords", "comments"), 0.35)
         txt = gen.render(gen.gen_sheet(rng, feats, settings, max_rules=3))
         # state that could leak from one in-process CLI run into a later one: custom properties defined
@@ -152,8 +155,11 @@ def generate(rseed, tier, idx):
                 if op["op"] == "make_on":
                     op["mode"] = g.choice((0, 1, 1, 2, None))
                     op["vr"] = g.random() < 0.35
-                    if g.random() < 0.15:
+                    k2 = g.random()
+                    if k2 < 0.15:
                         op["show"] = True
+                    elif k2 < 0.3:
+                        op["save"] = True
                 ops.append(op)
         if g.random() < 0.35:
             # one ColorPair object re-used for a burst of calls with different settings (retry flows such as
@@ -162,12 +168,14 @@ def generate(rseed, tier, idx):
             trgb, _ = gen.pick_text(g, bg, 4.5, g.choice(("hard", "same", "mid", "fix")))
             slot = nslots
             nslots += 1
-            burst = [{"op": "newpair", "slot": slot, "t": enc(gen.spell(g, trgb, gen.CSS_SPELLINGS + gen.API_ONLY_SPELLINGS)[0]),
+            burst = [{"op": "newpair", "slot": slot, "t": enc(gen.spell(g, trgb, gen.CSS_SPELLINGS + gen.API_ONLY_SPELLINGS + ("tuple", "list", "tuple"))[0]),
                       "b": enc(gen.spell(g, bg, gen.CSS_SPELLINGS)[0]), "large": g.random() < 0.3}]
             for _ in range(g.randint(3, 6)):
                 burst.append({"op": g.choice(("make_on", "make_on", "make_on", "readable_on")), "slot": slot})
                 if burst[-1]["op"] == "make_on":
                     burst[-1].update(mode=g.choice((0, 1, 1, 2, 2, None)), vr=g.random() < 0.4)
+                    if g.random() < 0.25:
+                        burst[-1][g.choice(("save", "show"))] = True
             pos = g.randrange(len(ops) + 1)
             ops[pos:pos] = burst
         if g.random() < 0.2:
@@ -179,7 +187,7 @@ def generate(rseed, tier, idx):
             # VOLUME: a few hundred DISTINCT pairs that all need fixing (strict mode, cheap) - anything bounded by
             # "so many distinct colours / fixes per process" (cache capacity, eviction, housekeeping) is crossed here
             heavy = []
-            for j in range(g.choice((400, 700))):
+            for j in range(g.choice((350, 550))):
                 bg = gen.rand_rgb(g)
                 trgb, _ = gen.pick_text(g, bg, 4.5, g.choice(("fix", "mid")))
                 heavy.append([enc("#%02x%02x%02x" % trgb), enc("#%02x%02x%02x" % bg)])
